@@ -9,9 +9,9 @@ FILES = ["Base/Prelude.v", "Base/Dec.v", "Gen/GovHandlers.v", "Model/Gov.v", "Mo
          "Model/F32Tally.v", "Proofs/Gov.v", "Proofs/C08Check.v", "Proofs/F32Tally.v"]
 
 
-def observe(R, n, seed=None):
+def observe(R, n, seed=None, nb=200):
     env = {"VERIF_SEED": str(seed)} if seed is not None else None
-    out = R.harness("c08", ["-n", n], env=env, outdir=os.path.join(R.work, "c08_%s" % (seed if seed is not None else "main")))
+    out = R.harness("c08", ["-n", n, "-nb", nb], env=env, outdir=os.path.join(R.work, "c08_%s" % (seed if seed is not None else "main")))
     if not out:
         return None
     res = R.coq_cases(out, label="C08 correspondence")
@@ -25,14 +25,17 @@ def observe(R, n, seed=None):
 def brief(case):
     """replay data of one history: initial world + operations (without the bulky snapshots)"""
     ops = [{k: v for k, v in o.items() if k != "proposals"} for o in case["ops"]]
-    return {"seed": case["seed"], "index": case["index"], "initial_world": case["initial_world"], "ops": ops}
+    return {"seed": case["seed"], "index": case["index"], "kind": case.get("kind"), "boundary": case.get("boundary"),
+            "initial_world": case["initial_world"], "ops": ops}
 
 
 def report(R, cases, viol):
     for idx, clauses in viol:
         for c in sorted(set(clauses)):
-            R.violation(c, "real gov code violates clause %s in generated history #%d (seed %s); operations with handler calls: %s"
-                        % (c, idx, cases[idx]["seed"], json.dumps([o for o in brief(cases[idx])["ops"] if o.get("applied") or o["op"] == "submit" and o["result"] == "ok"])[:700]),
+            R.violation(c, "real gov code violates clause %s in %s history #%d (seed %s)%s; operations with handler calls: %s"
+                        % (c, cases[idx].get("kind"), idx, cases[idx]["seed"],
+                           (" boundary spec " + json.dumps(cases[idx]["boundary"])) if cases[idx].get("boundary") else "",
+                           json.dumps([o for o in brief(cases[idx])["ops"] if o.get("applied") or o["op"] == "submit" and o["result"] == "ok"])[:500]),
                         brief(cases[idx]))
 
 
@@ -55,8 +58,8 @@ def run(R):
     R.coq_files(FILES)
     R.coq_property()
     R.audit()
-    n = 240 if R.tier == "quick" else 4000
-    obs = observe(R, n)
+    n = 200 if R.tier == "quick" else 4000
+    obs = observe(R, n, nb=200 if R.tier == "quick" else -1)   # boundary stream: 30 core + sample / whole enumeration
     total = 0
     if obs:
         out, mism, viol, total, cases = obs
@@ -68,7 +71,7 @@ def run(R):
         R.coverage.update({"traces_validated_against_impl": total, "input_distribution": dist})
     if R.broken and not R.violations:
         for s in range(100, 103):
-            o2 = observe(R, 600, seed=R.seed + s)
+            o2 = observe(R, 600, seed=R.seed + s, nb=1500)
             if o2:
                 _, _, viol2, t2, cases2 = o2
                 total += t2
